@@ -33,6 +33,7 @@ func runC15(c *Ctx) {
 	c15Keys(c)
 	c15Next(c)
 	c15CleanRenderBuffers(c)
+	c15AssertionsReadTheBody(c)
 }
 
 func c15Loop(c *Ctx) {
@@ -918,23 +919,100 @@ func c15Next(c *Ctx) {
 
 // ---- O15.8: every part is rendered into an empty buffer
 
+// bufEffect: what a helper of the package does to a buffer it gets as parameter, given that the buffer is clean at entry.
+type bufEffect struct {
+	hasExec    bool // a template is executed into the buffer (here or further down)
+	needsClean bool // ... before any Reset: the buffer must be empty when the helper is called
+	writes           bool // the helper writes into the buffer at all
+	okDirty, errDirty bool // the buffer may hold output at a return with a nil error (or any return of a helper without an error result) / with an error
+	bad              string // an execution into a possibly dirty buffer inside the helper
+}
+
+var bufEffectMemo = map[string]*bufEffect{}
+
+func bufEffectOf(f *ssa.Function, pi int, isExec func(ssa.Instruction) bool, depth int) *bufEffect {
+	key := fmt.Sprintf("%p/%d", f, pi)
+	if e, ok := bufEffectMemo[key]; ok {
+		return e
+	}
+	e := &bufEffect{}
+	bufEffectMemo[key] = e
+	if depth > 3 || pi >= len(f.Params) {
+		e.writes, e.okDirty, e.errDirty = true, true, true
+		return e
+	}
+	par := ssa.Value(f.Params[pi])
+	isBuf := func(v ssa.Value) bool {
+		rs := Roots(v, false)
+		if len(rs) == 1 && rs[0] == par {
+			return true
+		}
+		return Strip(v) == par
+	}
+	r := mayDirty(f, isBuf, false, isExec, depth+1)
+	atExit := r.atExit
+	e.writes, e.hasExec = r.wrote, r.hasExec
+	if len(r.dirtyExecs) > 0 {
+		e.bad = "execution into a possibly dirty buffer in " + f.Name()
+	}
+	if r2 := mayDirty(f, isBuf, true, isExec, depth+1); len(r2.dirtyExecs) > len(r.dirtyExecs) {
+		e.needsClean = true
+	}
+	for b, d := range atExit {
+		ret, ok := b.Instrs[len(b.Instrs)-1].(*ssa.Return)
+		if !ok || !d {
+			continue
+		}
+		isErr := false
+		if n := len(ret.Results); n > 0 && types.Identical(ret.Results[n-1].Type(), errType) && !IsNilConst(ret.Results[n-1]) {
+			isErr = true
+		}
+		if isErr {
+			e.errDirty = true
+		} else {
+			e.okDirty = true
+		}
+	}
+	return e
+}
+
 // mayDirty computes, for one buffer object (identified by pred on the receiver / argument values), the instructions
 // before which the buffer may hold earlier output: a forward may-analysis over the CFG with dirty=true after a write
-// event and dirty=false after Reset. entryDirty is the state at function entry.
-func mayDirty(fn *ssa.Function, isBuf func(ssa.Value) bool, entryDirty bool) (before map[ssa.Instruction]bool, atExit map[*ssa.BasicBlock]bool) {
-	event := func(in ssa.Instruction) (write, reset bool) {
+// event and dirty=false after Reset. entryDirty is the state at function entry. A call of a helper of the package that
+// takes the buffer is summarised (bufEffectOf); where the block ends with the test of that call's error, the two edges
+// carry the helper's state for its error and its success returns.
+type dirtyResult struct {
+	before     map[ssa.Instruction]bool
+	atExit     map[*ssa.BasicBlock]bool
+	wrote      bool
+	hasExec    bool
+	dirtyExecs []ssa.Instruction // executions (or helper calls that execute before resetting) reached with a possibly dirty buffer
+	helperBad  string
+}
+
+func mayDirty(fn *ssa.Function, isBuf func(ssa.Value) bool, entryDirty bool, isExec func(ssa.Instruction) bool, depth int) (res dirtyResult) {
+	var before map[ssa.Instruction]bool
+	var atExit map[*ssa.BasicBlock]bool
+	wrote := false
+	defer func() { res.before, res.atExit, res.wrote = before, atExit, wrote }()
+	type ev struct {
+		write, reset bool
+		helper       *bufEffect
+		call         *ssa.Call
+	}
+	event := func(in ssa.Instruction) ev {
 		cc := CC(in)
 		if cc == nil {
-			return false, false
+			return ev{}
 		}
 		if _, isDefer := in.(*ssa.Defer); isDefer {
-			return false, false
+			return ev{}
 		}
 		recvIsBuf := false
 		args := cc.Args
 		if cc.IsInvoke() {
 			recvIsBuf = isBuf(cc.Value)
-		} else if f := CalleeObj(cc); f != nil && RecvTypeName(f) != "" && len(args) > 0 {
+		} else if f := CalleeObj(cc); f != nil && RecvTypeName(f) != "" && len(args) > 0 && isBufferType(args[0].Type()) {
 			recvIsBuf = isBuf(args[0])
 			args = args[1:]
 		}
@@ -945,52 +1023,98 @@ func mayDirty(fn *ssa.Function, isBuf func(ssa.Value) bool, entryDirty bool) (be
 		if recvIsBuf {
 			switch name {
 			case "Reset", "Truncate":
-				return false, true
+				return ev{reset: true}
 			case "String", "Bytes", "Len", "Cap", "Available":
-				return false, false
+				return ev{}
 			}
-			return true, false
+			return ev{write: true}
 		}
-		for _, a := range args {
-			if isBuf(a) {
-				if name == "Put" {
-					return false, false
-				}
-				return true, false // handed to a callee that may write into it (tmpl.Execute(buf, data))
+		for i, a := range cc.Args {
+			if !isBuf(a) {
+				continue
 			}
+			if name == "Put" {
+				return ev{}
+			}
+			if sc := cc.StaticCallee(); sc != nil && len(sc.Blocks) > 0 && PkgOf(sc) == PkgOf(fn) && isExec != nil {
+				cl, _ := in.(*ssa.Call)
+				return ev{helper: bufEffectOf(sc, i, isExec, depth), call: cl}
+			}
+			return ev{write: true} // handed to a callee that may write into it (tmpl.Execute(buf, data))
 		}
-		return false, false
+		return ev{}
+	}
+	if len(fn.Blocks) == 0 {
+		return
 	}
 	in := map[*ssa.BasicBlock]bool{}
-	out := map[*ssa.BasicBlock]bool{}
-	if len(fn.Blocks) == 0 {
-		return nil, nil
-	}
-	transfer := func(b *ssa.BasicBlock, d bool) bool {
+	// out state per edge: out[b][k] for successor k
+	out := map[*ssa.BasicBlock][]bool{}
+	transfer := func(b *ssa.BasicBlock, d bool) []bool {
+		var last ev
 		for _, i := range b.Instrs {
-			w, r := event(i)
-			if w {
-				d = true
-			}
-			if r {
+			e := event(i)
+			switch {
+			case e.write:
+				d, wrote = true, true
+				last = ev{}
+			case e.reset:
 				d = false
+				last = ev{}
+			case e.helper != nil:
+				if e.helper.writes {
+					wrote = true
+				}
+				if e.helper.writes || e.helper.okDirty || e.helper.errDirty {
+					d = d || e.helper.okDirty || e.helper.errDirty
+					last = e
+				}
 			}
 		}
-		return d
+		res := make([]bool, len(b.Succs))
+		for k := range res {
+			res[k] = d
+		}
+		// the block ends with the test of the last helper call's error: split the state
+		if iff, ok := b.Instrs[len(b.Instrs)-1].(*ssa.If); ok && last.helper != nil && last.call != nil && len(b.Succs) == 2 {
+			f := CondFact(iff.Cond, true).Canon()
+			if f.Y != nil && IsNilConst(f.Y) && (f.Op == token.NEQ || f.Op == token.EQL) {
+				if e, isE := Strip(f.X).(*ssa.Extract); isE && e.Tuple == ssa.Value(last.call) && types.Identical(e.Type(), errType) {
+					errEdge, okEdge := 0, 1
+					if f.Op == token.EQL {
+						errEdge, okEdge = 1, 0
+					}
+					res[errEdge], res[okEdge] = last.helper.errDirty, last.helper.okDirty
+				}
+			}
+		}
+		return res
 	}
 	in[fn.Blocks[0]] = entryDirty
 	for changed := true; changed; {
 		changed = false
 		for _, b := range fn.Blocks {
-			d := in[b]
+			d := false
 			if b == fn.Blocks[0] {
 				d = entryDirty
 			}
 			for _, p := range b.Preds {
-				d = d || out[p]
+				for k, s := range p.Succs {
+					if s == b && k < len(out[p]) && out[p][k] {
+						d = true
+					}
+				}
 			}
 			o := transfer(b, d)
-			if d != in[b] || o != out[b] {
+			same := d == in[b] && len(o) == len(out[b])
+			if same {
+				for k := range o {
+					if o[k] != out[b][k] {
+						same = false
+					}
+				}
+			}
+			if !same {
 				in[b], out[b] = d, o
 				changed = true
 			}
@@ -1002,12 +1126,29 @@ func mayDirty(fn *ssa.Function, isBuf func(ssa.Value) bool, entryDirty bool) (be
 		d := in[b]
 		for _, i := range b.Instrs {
 			before[i] = d
-			w, r := event(i)
-			if w {
-				d = true
+			e := event(i)
+			if isExec != nil && isExec(i) && isBuf(CC(i).Args[1]) {
+				res.hasExec = true
+				if d {
+					res.dirtyExecs = append(res.dirtyExecs, i)
+				}
 			}
-			if r {
+			switch {
+			case e.write:
+				d = true
+			case e.reset:
 				d = false
+			case e.helper != nil:
+				if e.helper.hasExec {
+					res.hasExec = true
+				}
+				if e.helper.needsClean && d {
+					res.dirtyExecs = append(res.dirtyExecs, i)
+				}
+				if e.helper.bad != "" {
+					res.helperBad = e.helper.bad
+				}
+				d = d || e.helper.okDirty || e.helper.errDirty
 			}
 		}
 		if ExitOf(b) != ExitNone {
@@ -1017,33 +1158,63 @@ func mayDirty(fn *ssa.Function, isBuf func(ssa.Value) bool, entryDirty bool) (be
 	return
 }
 
+func isBufferType(t types.Type) bool {
+	if p, ok := t.Underlying().(*types.Pointer); ok {
+		t = p.Elem()
+	}
+	pk, n := NamedOf(t)
+	return (pk == "strings" && n == "Builder") || (pk == "bytes" && n == "Buffer") || (pk == "bufio" && n == "Writer")
+}
+
 func c15CleanRenderBuffers(c *Ctx) {
-	c.Rule("O15.8", "every part is rendered from the shot's variables alone: the writer a template is executed into is empty at that moment - a buffer made in this call, or one taken from a sync.Pool that only ever receives reset buffers; on every path a Reset lies between two executions into the same buffer, and a pooled buffer is reset on every path to its Put (a failed Execute leaves its partial output behind, which the next shot would send as the start of its URI)")
+	c.Rule("O15.8", "every part is rendered from the shot's variables alone: the writer a template is executed into is empty at that moment - a buffer made in this call, or one taken from a sync.Pool that only ever receives reset buffers; on every path a Reset lies between two executions into the same buffer (helpers of the package that render into a buffer they are given are summarised: what state they leave it in on success and on error), and a pooled buffer is reset on every path to its Put (a failed Execute leaves its partial output behind, which the next shot would send as the start of its URI)")
 	P := c.P
 	sExec := []Spec{{"text/template", "Template", "Execute"}, {"html/template", "Template", "Execute"}}
 	sPoolGet := Spec{"sync", "Pool", "Get"}
 	sPoolPut := Spec{"sync", "Pool", "Put"}
+	isExec := func(in ssa.Instruction) bool {
+		if _, isCall := in.(*ssa.Call); !isCall {
+			return false
+		}
+		return IsCall(in, sExec...)
+	}
 	n := 0
 	for _, fn := range P.ProdFuncs() {
-		execs := Calls(fn, sExec...)
-		if len(execs) == 0 {
-			continue
-		}
-		// the distinct writers
+		// the buffers of this function that something is rendered into: arguments of Execute and of package helpers
+		var roots []ssa.Value
 		seen := map[ssa.Value]bool{}
-		for _, ex := range execs {
-			w := CC(ex).Args[1]
-			roots := Roots(w, false)
-			if len(roots) != 1 || seen[roots[0]] {
-				if len(roots) != 1 {
-					n++
-					c.Bad("O15.8", fk(fn)+":writer-is-one-buffer", ex.Pos(), "the writer of template.Execute may be one of several objects; the rule follows one buffer")
-				}
-				continue
+		EachInstr(fn, func(in ssa.Instruction) {
+			cl, ok := in.(*ssa.Call)
+			if !ok {
+				return
 			}
-			root := roots[0]
-			seen[root] = true
-			n++
+			var cands []ssa.Value
+			if isExec(in) {
+				cands = append(cands, cl.Call.Args[1])
+			} else if sc := cl.Call.StaticCallee(); sc != nil && len(sc.Blocks) > 0 && PkgOf(sc) == PkgOf(fn) {
+				for _, a := range cl.Call.Args {
+					if isBufferType(a.Type()) {
+						cands = append(cands, a)
+					}
+				}
+			}
+			for _, w := range cands {
+				rs := Roots(w, false)
+				if len(rs) != 1 {
+					if isExec(in) {
+						n++
+						c.Bad("O15.8", fk(fn)+":writer-is-one-buffer", in.Pos(), "the writer of template.Execute may be one of several objects; the rule follows one buffer")
+					}
+					continue
+				}
+				if !seen[rs[0]] {
+					seen[rs[0]] = true
+					roots = append(roots, rs[0])
+				}
+			}
+		})
+		for _, root := range roots {
+			root := root
 			isBuf := func(v ssa.Value) bool {
 				rs := Roots(v, false)
 				return len(rs) == 1 && rs[0] == root
@@ -1058,33 +1229,34 @@ func c15CleanRenderBuffers(c *Ctx) {
 				if cl, ok := x.Tuple.(*ssa.Call); ok {
 					pooled = MatchCC(&cl.Call, sPoolGet)
 				}
-			}
-			if _, isTA := root.(*ssa.TypeAssert); isTA {
-				if cl, _ := CallOfValue(root.(*ssa.TypeAssert).X); cl != nil {
+			case *ssa.TypeAssert:
+				if cl, _ := CallOfValue(x.X); cl != nil {
 					pooled = MatchCC(&cl.Call, sPoolGet)
 				}
-			}
-			key := fk(fn) + ":" + strings.TrimPrefix(types.TypeString(root.Type(), nil), "*")
-			if !fresh && !pooled {
-				// a buffer that outlives the call (field, parameter, global): its state at entry is unknown
-				before, _ := mayDirty(fn, isBuf, true)
-				bad := ""
-				for _, ex2 := range execs {
-					if isBuf(CC(ex2).Args[1]) && before[ex2] {
-						bad = P.Pos(ex2.Pos())
-					}
+			case *ssa.Parameter:
+				if len(PkgCallers(fn)) > 0 {
+					continue // a helper that renders into the buffer it is given: summarised at its callers
 				}
-				c.Check(bad == "", "O15.8", key+":reset-before-every-render", ex.Pos(), "the buffer is neither made in this call nor taken from a pool: a Reset must precede every Execute; dirty at "+bad)
+			}
+			r := mayDirty(fn, isBuf, !fresh && !pooled, isExec, 0)
+			if !r.hasExec {
 				continue
 			}
-			before, atExit := mayDirty(fn, isBuf, false)
-			bad := ""
-			for _, ex2 := range execs {
-				if isBuf(CC(ex2).Args[1]) && before[ex2] {
-					bad = P.Pos(ex2.Pos())
-				}
+			n++
+			key := fk(fn) + ":" + strings.TrimPrefix(types.TypeString(root.Type(), nil), "*")
+			bad := r.helperBad
+			for _, ex := range r.dirtyExecs {
+				bad = "may hold earlier output at " + P.Pos(ex.Pos())
 			}
-			c.Check(bad == "", "O15.8", key+":empty-at-every-render", ex.Pos(), "a Reset lies between two executions into the same buffer on every path; may hold earlier output at "+bad)
+			pos := fn.Pos()
+			if in, ok := root.(ssa.Instruction); ok {
+				pos = in.Pos()
+			}
+			if !fresh && !pooled {
+				c.Check(bad == "", "O15.8", key+":reset-before-every-render", pos, "the buffer is neither made in this call nor taken from a pool (its state at entry is unknown): a Reset must precede every execution; "+bad)
+				continue
+			}
+			c.Check(bad == "", "O15.8", key+":empty-at-every-render", pos, "a Reset lies between two executions into the same buffer on every path; "+bad)
 			if pooled {
 				// every Put of this buffer: direct -> clean before it; deferred -> clean at every exit after the defer
 				badPut := ""
@@ -1094,18 +1266,197 @@ func c15CleanRenderBuffers(c *Ctx) {
 						return
 					}
 					if _, isDefer := in.(*ssa.Defer); isDefer {
-						for b, d := range atExit {
+						for b, d := range r.atExit {
 							if d && (BlockCanReach(in.Block(), b) || in.Block() == b) {
 								badPut = "deferred Put with the buffer possibly dirty at the exit " + P.Pos(b.Instrs[len(b.Instrs)-1].Pos())
 							}
 						}
-					} else if before[in] {
+					} else if r.before[in] {
 						badPut = "Put of a possibly dirty buffer at " + P.Pos(in.Pos())
 					}
 				})
-				c.Check(badPut == "", "O15.8", key+":pooled-buffer-is-put-back-empty", ex.Pos(), "the pool only ever receives reset buffers (the next Get relies on it); "+badPut)
+				c.Check(badPut == "", "O15.8", key+":pooled-buffer-is-put-back-empty", pos, "the pool only ever receives reset buffers (the next Get relies on it); "+badPut)
 			}
 		}
 	}
 	c.Floor("O15.8", "render buffers of template executions", n, 3)
+}
+
+// ---- O15.9: an assertion judges the response it is given
+
+func c15AssertionsReadTheBody(c *Ctx) {
+	c.Rule("O15.9", "a configured assertion judges the response: in the assert/response postprocessor every use of the body bytes (their length in the size test, their content in the pattern test) happens under some configuration condition (Size != nil, a pattern list being ranged over); on every path that is consistent with that condition - the same field tests answered the same way, a body reader present, no read error - the bytes come from a read of the body reader the processor was given (a size assertion that skips the read compares the expectation with 0 and fails or passes regardless of the response)")
+	P := c.P
+	fn := P.Func("components/providers/scenario/http/postprocessor", "AssertResponse", "Process")
+	if fn == nil || len(fn.Params) < 3 {
+		c.Anchor("O15.9", "components/providers/scenario/http/postprocessor.AssertResponse.Process(resp, body)")
+		return
+	}
+	recv, body := ssa.Value(fn.Params[0]), ssa.Value(fn.Params[2])
+	// the reads of the body: io.ReadAll(body) / body.Read / io.Copy(_, body) / ReadFrom(body)
+	isRead := func(in ssa.Instruction) bool {
+		cc := CC(in)
+		if cc == nil {
+			return false
+		}
+		if _, isDefer := in.(*ssa.Defer); isDefer {
+			return false
+		}
+		uses := false
+		for _, a := range cc.Args {
+			if DerivesAny(a, false, func(v ssa.Value) bool { return v == body }) {
+				uses = true
+			}
+		}
+		if cc.IsInvoke() && DerivesAny(cc.Value, false, func(v ssa.Value) bool { return v == body }) {
+			uses = true
+		}
+		return uses
+	}
+	var readVals []ssa.Value
+	EachInstr(fn, func(in ssa.Instruction) {
+		if v, ok := in.(ssa.Value); ok && isRead(in) {
+			readVals = append(readVals, v)
+		}
+	})
+	fromRead := func(v ssa.Value) bool {
+		for _, r := range Roots(v, true) {
+			for _, rv := range readVals {
+				if cl, _ := CallOfValue(r); cl != nil && ssa.Value(cl) == rv {
+					return true
+				}
+			}
+		}
+		return false
+	}
+	// field of the receiver a value is loaded from (a.Size, a.Body, a.Size.Val ...): the outermost receiver field
+	recvField := func(v ssa.Value) *types.Var {
+		for d := 0; d < 6; d++ {
+			v = Strip(v)
+			switch x := v.(type) {
+			case *ssa.UnOp:
+				v = x.X
+			case *ssa.FieldAddr:
+				if Strip(x.X) == recv || isSpillOf(x.X, recv) {
+					return derefStructOf(x.X.Type()).Field(x.Field)
+				}
+				v = x.X
+			case *ssa.Field:
+				if Strip(x.X) == recv {
+					return x.X.Type().Underlying().(*types.Struct).Field(x.Field)
+				}
+				v = x.X
+			default:
+				return nil
+			}
+		}
+		return nil
+	}
+	n := 0
+	EachInstr(fn, func(in ssa.Instruction) {
+		// a use of the bytes: len(b) or a call taking b, where b may come from a read
+		cc := CC(in)
+		if cc == nil || isRead(in) {
+			return
+		}
+		if _, isDefer := in.(*ssa.Defer); isDefer {
+			return
+		}
+		usesBytes := false
+		for _, a := range cc.Args {
+			if sl, ok := a.Type().Underlying().(*types.Slice); ok {
+				if bt, ok := sl.Elem().Underlying().(*types.Basic); ok && bt.Kind() == types.Byte && fromRead(a) {
+					usesBytes = true
+				}
+			}
+		}
+		if !usesBytes {
+			return
+		}
+		n++
+		// the configuration conditions the use stands under
+		var as []Assumption
+		var conds []string
+		for _, f := range DomFacts(in.Block()) {
+			f := f.Canon()
+			if f.Y == nil {
+				continue
+			}
+			switch {
+			case (f.Op == token.NEQ || f.Op == token.EQL) && IsNilConst(f.Y) && recvField(f.X) != nil:
+				fv, op := recvField(f.X), f.Op
+				conds = append(conds, fv.Name()+" "+op.String()+" nil")
+				as = append(as, Assumption{Pred: func(v ssa.Value) bool {
+					b, ok := v.(*ssa.BinOp)
+					return ok && b.Op == op && IsNilConst(b.Y) && recvField(b.X) == fv
+				}, Val: true}, Assumption{Pred: func(v ssa.Value) bool {
+					b, ok := v.(*ssa.BinOp)
+					return ok && b.Op == negateTok(op) && IsNilConst(b.Y) && recvField(b.X) == fv
+				}, Val: false})
+			case f.Op == token.LSS:
+				// idx < len(a.F): the list is not empty
+				if cl, ok := f.Y.(*ssa.Call); ok {
+					if bi, isB := cl.Call.Value.(*ssa.Builtin); isB && bi.Name() == "len" && recvField(cl.Call.Args[0]) != nil {
+						fv := recvField(cl.Call.Args[0])
+						conds = append(conds, "len("+fv.Name()+") > 0")
+						as = append(as, Assumption{Pred: func(v ssa.Value) bool {
+							b, ok := v.(*ssa.BinOp)
+							if !ok {
+								return false
+							}
+							g := Fact{Op: b.Op, X: b.X, Y: b.Y}.Canon()
+							k, isK := ConstInt(g.X)
+							c2, isC := g.Y.(*ssa.Call)
+							if !isK || k != 0 || g.Op != token.LSS || !isC {
+								return false
+							}
+							bi2, isB2 := c2.Call.Value.(*ssa.Builtin)
+							return isB2 && bi2.Name() == "len" && recvField(c2.Call.Args[0]) == fv
+						}, Val: true})
+					}
+				}
+			}
+		}
+		// a body reader is there, and reading it does not fail
+		as = append(as,
+			Assumption{Pred: func(v ssa.Value) bool {
+				b, ok := v.(*ssa.BinOp)
+				return ok && b.Op == token.NEQ && IsNilConst(b.Y) && DerivesAny(b.X, false, func(x ssa.Value) bool { return x == body })
+			}, Val: true},
+			Assumption{Pred: func(v ssa.Value) bool {
+				b, ok := v.(*ssa.BinOp)
+				return ok && b.Op == token.EQL && IsNilConst(b.Y) && DerivesAny(b.X, false, func(x ssa.Value) bool { return x == body })
+			}, Val: false},
+			Assumption{Pred: func(v ssa.Value) bool {
+				b, ok := v.(*ssa.BinOp)
+				return ok && b.Op == token.NEQ && IsNilConst(b.Y) && types.Identical(b.X.Type(), errType)
+			}, Val: false},
+			Assumption{Pred: func(v ssa.Value) bool {
+				b, ok := v.(*ssa.BinOp)
+				return ok && b.Op == token.EQL && IsNilConst(b.Y) && types.Identical(b.X.Type(), errType)
+			}, Val: true})
+		iv := PathQuery{Fn: fn, Shallow: true, Assume: as,
+			Stop: func(i2 ssa.Instruction) bool { return i2 == in },
+			Exit: func(*ssa.BasicBlock) bool { return false },
+			Weight: func(i2 ssa.Instruction) (int, int) {
+				if isRead(i2) {
+					return 1, 1
+				}
+				return 0, 0
+			}}.Count()
+		sort.Strings(conds)
+		c.Check(!iv.NoPath && iv.Min >= 1, "O15.9", fmt.Sprintf("%s:body-read-before-%s#%d-under-%s", fk(fn), strings.ReplaceAll(cc.Value.Name(), " ", "-"), n, strings.Join(conds, "&")), in.Pos(),
+			fmt.Sprintf("reads of the body on the paths to this use under {%s}, a body present and no read error = %v (want at least 1 on every path); witness %s", strings.Join(conds, ", "), iv, PathString(iv.MinPath)))
+	})
+	c.Floor("O15.9", "uses of the body bytes in AssertResponse.Process", n, 2)
+}
+
+// isSpillOf: v is the local cell a value receiver / parameter was copied into.
+func isSpillOf(v, param ssa.Value) bool {
+	cell, ok := Strip(v).(*ssa.Alloc)
+	if !ok {
+		return false
+	}
+	sts := StoresTo(cell)
+	return len(sts) == 1 && sts[0].Val == param
 }
